@@ -59,12 +59,20 @@ class Prop(core.Prop):
         atexit.register(shutil.rmtree, self.tmp, True)
 
     def groups(self, tier):
+        for nrec in (1025, 10001, 20002) + ((4097, 30003) if tier == 'thorough' else ()):
+            yield {'nrec': nrec, 'ndep': 2, 'rot': 1}
         for nrec in (1, 2, 3):
             for ndep in (1, 2, 3):
                 for rot in range(len(VALS) if tier == 'thorough' else 3):
                     yield {'nrec': nrec, 'ndep': ndep, 'rot': rot}
 
     def expand(self, group):
+        if group['nrec'] > 3:
+            # long tables (a 1 Hz flight of several hours; writers that work in blocks)
+            for mk in ('one', 'column'):
+                for src in ('built', 'text'):
+                    yield dict(group, miss=0, mask=mk, comments=0, indep_units=True, source=src)
+            return
         for mi in range(len(MISS)):
             for mk in MASKS:
                 if mk == 'near' and MISS[mi] == 0:
